@@ -2,6 +2,7 @@ import FM.Base.Codec
 import FM.Model.Wrap
 import FM.Model.Sentence
 import FM.Model.Frontmatter
+import FM.Model.Config
 /-
   One operation per input line, one canonical answer per output line.
 -/
@@ -53,6 +54,30 @@ def step (line : String) : String :=
           let handed : Str := if fm.isEmpty then t
             else if content.isEmpty && delimCount fm < 2 then "<none>".toList else content
           encList [handed, fillShell (fun _ => stub) t]
+      | none => bad
+  | ["merge", cf, of, al, ex, au, f, hasCfg] =>
+      match decList cf, decList of, decList al, decList ex, decBool au, decStr f, decBool hasCfg with
+      | some cf, some of, some al, some ex, some au, some f, some hasCfg =>
+          let toS (l : List Str) := l.map String.ofList
+          let t : FM.Config.Tables := { configFields := toS cf, optionsFields := toS of, autoLocked := toS al }
+          let v := FM.Config.merge t (fun _ => .s "cli") (fun _ => if hasCfg then some (.s "cfg") else none)
+                    (toS ex) au (String.ofList f)
+          match v with
+          | .s x => x
+          | _ => bad
+      | _, _, _, _, _, _, _ => bad
+  | ["findconfig", lv] =>
+      let parts := if lv.isEmpty then [] else lv.splitOn ","
+      let levels := parts.mapM fun p => match p.toList with
+        | [a, b, c, d] => some ({ dotFlowmark := a == '1', flowmark := b == '1', pyproject := c == '1',
+                                  pyprojectHasSection := d == '1' } : FM.Config.Level)
+        | _ => none
+      match levels with
+      | some ls => match FM.Config.findConfig ls 0 with
+          | some (k, .dot) => s!"{k}:.flowmark.toml"
+          | some (k, .plain) => s!"{k}:flowmark.toml"
+          | some (k, .pyproject) => s!"{k}:pyproject.toml"
+          | none => "none"
       | none => bad
   | _ => bad
 
